@@ -109,7 +109,7 @@ def evaluate(r, profile, lines, model, stats):
                 r.model_disagreement(full, f"{status} depth={hwd} native={hwn}", f"{ms} depth={md} native={mn}")
         # ---------------------------------------------------------------- measurements
         if not crashed and budget == 0 and hwd >= 50 and nbytes > 0:
-            key = shape if ("," not in shape and shape.endswith("000")) or fam in "S" else "(mixed)"
+            key = shape if ("," not in shape and shape.endswith("000")) else f"({fam}: mixed/with work)"
             if fam == "S":
                 key = "S:super()"
             st = stats[profile]
